@@ -9,15 +9,15 @@ one() {
   r=$(tools/seedrun.sh $n quick 400)
   rc=$(echo "$r" | grep -o 'rc=[0-9]*' | tail -1)
   how=""
-  echo "$r" | grep '^FAILED OBLIGATION' | grep -v 'bounded:' | grep -vq 'translation\|no longer generated\|unit lost' && how="${how}P"
-  echo "$r" | grep '^FAILED OBLIGATION' | grep -q 'translation\|no longer generated\|unit lost' && how="${how}L"
+  echo "$r" | grep '^FAILED OBLIGATION' | grep -v 'bounded:' | grep -vq 'translation\|no longer generated\|unit lost\|#anchor:' && how="${how}P"
+  echo "$r" | grep '^FAILED OBLIGATION' | grep -q 'translation\|no longer generated\|unit lost\|#anchor:' && how="${how}L"
   echo "$r" | grep -q '^FAILED OBLIGATION bounded:' && how="${how}B"
   input=$(echo "$r" | grep -q 'no-failing-input-found' && echo "some-without-input" || echo "input")
   first=$(echo "$r" | grep -m1 '^FAILED OBLIGATION' | cut -c19-140)
   echo "$n $rc caught-by=${how:-NONE} $input :: $first"
 }
 export -f one
-ls -d seeded/*/ | while read d; do [ -f $d/patch.diff ] && basename $d; done | xargs -P 3 -I{} bash -c 'one {}' > $out.tmp
+ls -d seeded/*/ | while read d; do [ -f $d/patch.diff ] && basename $d; done | xargs -P 4 -I{} bash -c 'one {}' > $out.tmp
 sort $out.tmp > $out; rm -f $out.tmp
 cat $out
 bad=$(grep -vc ' rc=1 ' $out)
